@@ -548,12 +548,31 @@ func RandomOp(r *hx.Rng, d Desc, kinds []string) OpDesc {
 		o.Pred = hx.Pick(r, []string{"ge", "ge", "le", "le", "even", "even", "all", "none"})
 		o.PC = r.Intn(o.Arity)
 		o.PT = int64(r.Range(-4, 4))
+		if data := attrData(d, o.Arity, o.Attr); len(data) > 0 && r.Bool() {
+			// a threshold taken from the data: splits the vertices whatever their scale
+			o.PT = hx.Pick(r, data)[o.PC] + int64(r.Range(-1, 1))
+		}
 	case "crop":
 		o.Attr = pickAttr(r, d, 3, "Position")
 		o.V, o.V2 = randVec(r, 3, -8, 2), randVec(r, 3, -2, 8)
+		if data := attrData(d, 3, o.Attr); len(data) > 0 && r.Chance(2, 3) {
+			// the box spanned by two of the points, grown or shrunk by one: boundary points on either side
+			p, q := hx.Pick(r, data), hx.Pick(r, data)
+			g := int64(r.Range(-1, 1))
+			for k := 0; k < 3; k++ {
+				lo, hi := p[k], q[k]
+				if lo > hi {
+					lo, hi = hi, lo
+				}
+				o.V[k], o.V2[k] = lo-g, hi+g
+				if o.V[k] > o.V2[k] {
+					o.V[k], o.V2[k] = o.V2[k], o.V[k]
+				}
+			}
+		}
 	case "weld":
 		o.Attr = pickAttr(r, d, 3, "Position")
-		o.Decimal = hx.Pick(r, []int{0, 0, 3, -1, -1, -2})
+		o.Decimal = hx.Pick(r, []int{0, 0, 1, 2, 3, -1, -1, -2, -2})
 	case "set_indices":
 		nv := d.NVerts()
 		n := 0
